@@ -20,7 +20,7 @@ RULE = ("pairs (start, end = start * delta) with relative rotation angle log-uni
         "the two atan2 angles; out-of-range s raises (3-D matrix and quaternion routes); vector s = map over scalars; all "
         "routes agree. Non-trivial: relative angle < 1e-6 or > pi/2, or negative quaternion dot product, or s within 1e-9 of "
         "an end, or vector s.")
-RULE = RULE + probes.RULE_TEXT + (probes.AUG_TEXT if PROPERTY_ID in probes.AUG_PROPS else "") + probes.VARIANT_TEXT + probes.OWN_TEXT
+RULE = RULE + probes.RULE_TEXT + (probes.AUG_TEXT if PROPERTY_ID in probes.AUG_PROPS else "") + probes.VARIANT_TEXT + probes.OWN_TEXT + probes.EXTRA_RULES.get(PROPERTY_ID, "")
 ASSUMPTIONS = ["tolerance 1e-6 (relative to max(1,|t|) for translations), validity 1e-9",
                "antipodal quaternion pairs (|dot| > 0.999 with the long arc) are outside the domain and skipped (counted under label antipodal_skipped)",
                "2-D routes are not required to reject s outside [0,1]"]
